@@ -25,7 +25,7 @@ from ..gen import c05doc as G
 MANIFEST = dict(
     text="Proof: Lean theorems over a hand model (Rpft.Document) of from_dict/render of the whole export schema (flows, all node/router/action kinds incl. pass-through, _ui positions, groups, campaigns, triggers): render_load (load and render succeed and render(load d) ≈ d, ≈ defined as equality of explicit normal forms, for every valid document in re-join order), roundtrip_unordered (for ANY category/exit order the output is exactly shapeDoc(reorderDoc d)), render_load_idem (the second round trip EQUALS the first, without ordering hypotheses), legacy_trigger / legacy_trigger_doc (both keyword forms, no validity hypothesis), kernel-checked negative witnesses for the four hypotheses the code forces; tied to the code by exact comparison of the model's output with RapidProContainer.from_dict(d).render() on type-directed generated documents, a near-valid quirk stream, every fixture JSON and the Lean witnesses, and by tables regenerated from actions.py / routers.py / common.py on every run; the statement itself (≈ written independently in Python, second trip equal, input untouched incl. identity of nested containers, JSON-serialisable, both keyword forms) is evaluated on the real code for every case.",
     ref="§5 C05",
-    note="Trusts: Lean kernel (axioms audited each run), differential harness, generator and Driver JSON codec (self-tested: decode∘encode = id on every generated document), CPython dict order/deepcopy. Pass-through JSON is opaque canonical text in the model; _ui: the model keeps the node positions of the input and derives type/config of every rendered entry from the node (Rpft.DocumentUi: render_ui of the six node classes, operand derivation character by character; tied on every case, instances kernel-checked in ui_operand_whole_path; not part of the ≈ of the Lean theorems); uuid invention and contact-field key derivation are outside the model (model declines, counted). Idempotence is proved on Valid ∧ CatsWired ∧ UntypedFields documents (C05_idem_full, the unconditional statement, is kept visible and is only tested). Open findings (F-C05-a, typed contact field rendering the builtin `type`, was fixed in /repo) F-C05-b (top-level group attributes dropped), F-C05-c (default category not last → reorder), F-C05-d (exits re-emitted in category order) are exercised in a deterministic stream; the main generator avoids their triggers.",
+    note="Trusts: Lean kernel (axioms audited each run), differential harness, generator and Driver JSON codec (self-tested: decode∘encode = id on every generated document), CPython dict order/deepcopy. Pass-through JSON is opaque canonical text in the model; _ui: the model keeps the node positions of the input and derives type/config of every rendered entry from the node (Rpft.DocumentUi: render_ui of the six node classes, operand derivation character by character; tied on every case, instances kernel-checked in ui_operand_whole_path; not part of the ≈ of the Lean theorems); uuid invention and contact-field key derivation are outside the model (model declines, counted). Idempotence is proved on Valid ∧ CatsWired ∧ UntypedFields documents (C05_idem_full, the unconditional statement, is kept visible and is only tested). Open findings (F-C05-a, typed contact field rendering the builtin `type`, was fixed in /repo) F-C05-b (top-level group attributes dropped), F-C05-c (default category not last → reorder), F-C05-d (exits re-emitted in category order), F-C05-e (display name of a result / field in _ui config.operand replaced by its key) are exercised in deterministic streams; the main generator avoids their triggers.",
     technique="Lean 4 proof (explicit images of load, association-list invariants for the uuid dictionaries, reordering argument for the category re-join) + model/code differential run + direct oracle",
 )
 
@@ -34,7 +34,51 @@ FINDING_TEXT = {
     "b": "attributes (query/status/system/count) of a top-level group are dropped: validate() rebuilds the group list from names and uuids",
     "c": "a switch router whose default category is not last (or not just before the no-response category) comes back with categories and exits reordered",
     "d": "the exits of a router node are re-emitted in category order (exit order of the input is not kept)",
+    "e": "the display name of a run result / contact field in the editor data (_ui.nodes[…].config.operand.name, e.g. \"Result_wfr\" in the repo's own all_test_flows.json) is replaced by its key: render_ui derives the entry from the router operand and cannot know the name",
 }
+
+
+# F-C05-e: the display name the editor keeps next to the key of a result / contact field in `_ui` (config.operand.name)
+# is replaced by the key.  The document is the node 95f465cd… of tests/output/all_test_flows.json on its own.
+DISPLAY_NAME_DOC = json.loads('{"version": "13", "site": "https://rapidpro.idems.international", "flows": [{"name": "switch_nodes", "uuid": "6a0eecb9-4b9b-4e99-8a59-238e00d9837c", "spec_version": "13.1.0", "language": "base", "type": "messaging", "revision": 24, "expire_after_minutes": 10080, "metadata": {"revision": 21}, "localization": {}, "nodes": [{"uuid": "95f465cd-6794-4ff4-b926-e94afd341ebf", "actions": [], "router": {"type": "switch", "default_category_uuid": "2fa1acd7-713c-47ff-8970-45ef8a54233f", "categories": [{"uuid": "64115385-0378-42c0-a7df-7c64fe84d966", "name": "A", "exit_uuid": "60e44d1d-e3cd-4cff-bbf1-643d1b1fff49"}, {"uuid": "2fa1acd7-713c-47ff-8970-45ef8a54233f", "name": "Other", "exit_uuid": "19fd9aa7-6eff-45b1-9a4f-21f3399f08ad"}], "cases": [{"arguments": ["a"], "type": "has_any_word", "uuid": "aeb0407f-6a53-499c-b2e8-9cbe88db70c4", "category_uuid": "64115385-0378-42c0-a7df-7c64fe84d966"}], "operand": "@results.result_wfr"}, "exits": [{"uuid": "60e44d1d-e3cd-4cff-bbf1-643d1b1fff49", "destination_uuid": null}, {"uuid": "19fd9aa7-6eff-45b1-9a4f-21f3399f08ad", "destination_uuid": null}]}], "_ui": {"nodes": {"95f465cd-6794-4ff4-b926-e94afd341ebf": {"type": "split_by_run_result", "position": {"left": 400, "top": 620}, "config": {"operand": {"id": "result_wfr", "type": "result", "name": "Result_wfr"}, "cases": {}}}}}}], "campaigns": [], "triggers": [], "fields": [], "groups": []}')
+
+
+def display_name_stream(ck):
+    """deterministic: (1) the fixture's entry (`name` = "Result_wfr", key result_wfr), (2) the same with a free display
+    name, (3) counterfactual: `name` equal to the key.  Attribution: the ONLY difference between input and output is
+    config.operand.name, which comes out as the key; anything else is a violation."""
+    seen = []
+    for name in ("Result_wfr", "Quiz answer (first try)", "result_wfr"):
+        d = copy.deepcopy(DISPLAY_NAME_DOC)
+        ent = list(d["flows"][0]["_ui"]["nodes"].values())[0]
+        ent["config"]["operand"]["name"] = name
+        out, err = real_roundtrip(copy.deepcopy(d))
+        ck.evaluations += 1
+        if out is None:
+            ck.violation("a valid export with a display name in _ui config.operand cannot be loaded / rendered", {"input": d, "error": err})
+            return
+        try:
+            got = list(out["flows"][0]["_ui"]["nodes"].values())[0]
+        except Exception:  # noqa: BLE001
+            got = None
+        fixed = copy.deepcopy(d)
+        list(fixed["flows"][0]["_ui"]["nodes"].values())[0]["config"]["operand"]["name"] = "result_wfr"
+        if G.strict_eq(got, ent):
+            seen.append((name, "kept"))
+        elif name != "result_wfr" and G.strict_eq(got, list(fixed["flows"][0]["_ui"]["nodes"].values())[0]) and not G.approx_diff(fixed, out):
+            seen.append((name, "replaced by the key"))
+        else:
+            ck.violation("the _ui entry of a split on a run result comes back changed, and not in the way finding F-C05-e describes "
+                         "(display name replaced by the key, nothing else)", {"input_entry": ent, "output_entry": got})
+            return
+    ck.count("known_F-C05-e_stream", len(seen))
+    if any(o == "replaced by the key" for _, o in seen):
+        if ("result_wfr", "kept") not in seen:
+            ck.violation("F-C05-e counterfactual failed: an entry whose display name equals its key does not come back unchanged", {"seen": seen})
+        else:
+            ck.known("F-C05-e", FINDING_TEXT["e"], {"seen": seen})
+    else:
+        ck.notes.append("F-C05-e no longer reproduces (display names in _ui config.operand are kept)")
 
 
 # ----------------------------------------------------------------------------- real code
@@ -609,6 +653,7 @@ def run(ck: core.Check):
             ck.notes.append(f"F-C05-{k} is no longer open but the Lean model still fails on {name}: update the model")
 
     # 2. known-finding stream
+    display_name_stream(ck)
     ks = known_stream(open_ids)
     fold([case_worker(ks)] if ks else [], "known_finding_stream")
     for k in sorted(open_ids):
